@@ -3,6 +3,7 @@ import GrassProofs.Lemmas.CssTreeBasic
 import GrassProofs.Lemmas.CssTreeSel
 import GrassProofs.Lemmas.CssTreeBuild
 import GrassProofs.Lemmas.CssTreeBubble2
+import GrassProofs.Lemmas.CssTreeNest
 /-
   C04 — Nesting, `&`, @at-root and bubbling at-rules flatten to equivalent flat CSS.
 
@@ -207,6 +208,63 @@ theorem C04_bubbling_full_of_finish (hfin : C04_finish_reads_index_order_full) :
     show observeTree t = flattenSpec src
     rw [hfin af src t h hb ht]; exact hp
 
+/-! ### round 3: the mutating `finish` is out of the unproved part -/
+
+-- `Good t` (Lemmas/CssTreeBubble.lean): ROOT is a tombstone, every other node has a kind and a parent
+-- with a smaller index, child lists and parent pointers describe the same tree (`cp`, `pc`, no
+-- duplicates), declarations have no children.  Every tree the visitor builds from the bubbling
+-- fragment is `Good` (`C04_treeBuild_good_bubbling`).
+-- `nestedTop t` (Lemmas/CssTreeNest.lean): the children of ROOT in index order, each with the
+-- statements nested below it in child-list order (`subF`).
+
+/-- **`CssTree::finish` returns the nested reading.**  On every well-formed index tree — any kinds,
+    any depth, at-rules included — the mutating loop of css_tree.rs:43 (`stmts[idx].take()`,
+    recursive `apply_children` over the child map, `add_child_to_parent`, tombstones filtered out at
+    the end; the loop bound `idx < len - 1` included) never reaches an `unreachable!()` and returns
+    exactly the statements whose parent is ROOT, in index order, each carrying the statements nested
+    below it in child-list order.  Proof: `applyChildren` completes one subtree and touches nothing
+    outside it (`pspec_all`/`inner`, disjointness of sibling subtrees `desc_disjoint`), and the outer
+    loop only ever starts at children of ROOT because everything else has been taken (`tstep`). -/
+theorem C04_finish_nested (t : Tree) (gd : Good t) : finish t = some (nestedTop t) := finish_good t gd
+
+/-- The observation of a well-formed tree is the block view of its nested reading (the serializer's
+    skipping of invisible statements changes nothing, `C04_finish_invisible`). -/
+theorem C04_observeTree_nested (t : Tree) (gd : Good t) : observeTree t = .ok (blocksTop (nestedTop t)) := by
+  unfold observeTree
+  rw [C04_finish_nested t gd]
+  simp only [blocksTop_emitTop]
+
+/-- Every tree built from the bubbling fragment is well-formed. -/
+theorem C04_treeBuild_good_bubbling (af : AsFound) (h : af.shallowSibling = true) (src : Stmts)
+    (hb : bubOnlyL src = true) (t : Tree) (ht : treeBuild af src = .ok t) : Good t := by
+  have rel := stmtsB_rel af h src hb Tree.init SCtx.init VCtx.init good_init cohB_init
+  unfold treeBuild at ht
+  cases hs : specStmts SCtx.init src with
+  | error e =>
+    rw [hs] at rel
+    simp only [RelB] at rel
+    rw [rel] at ht; cases ht
+  | ok x =>
+    obtain ⟨ds, bs⟩ := x
+    rw [hs] at rel
+    obtain ⟨t', hb', gd', _⟩ := rel
+    rw [hb'] at ht; injection ht with ht; subst ht; exact gd'
+
+/-- What is left of the missing link after `C04_finish_nested`: reading the nested tree depth-first
+    (what the serializer does) visits the nodes in creation order, i.e. every `add_child` of the
+    bubbling fragment lands on the right-most branch of the tree (this is where the position of the
+    copy made by the following-sibling test matters; C04-D3 is the case where it fails, and it
+    needs @at-root).  NOT proved; covered by the correspondence. -/
+def C04_preorder_is_creation_order_full : Prop :=
+  ∀ (af : AsFound) (src : Stmts) (t : Tree), af.shallowSibling = true → bubOnlyL src = true →
+    treeBuild af src = .ok t → blocksTop (nestedTop t) = observeIdx t
+
+/-- The smaller statement suffices for the full bubbling theorem. -/
+theorem C04_bubbling_full_of_preorder (hpre : C04_preorder_is_creation_order_full) : C04_bubbling_full := by
+  apply C04_bubbling_full_of_finish
+  intro af src t h hb ht
+  rw [C04_observeTree_nested t (C04_treeBuild_good_bubbling af h src hb t ht), hpre af src t h hb ht]
+
 /-- Growth 2, not proved: @at-root (without and with queries) for the specified variant.  Missing:
     an invariant for `link_child_to_parent` trees (copies re-parented above one another) and the
     deep sibling test `addRawDeep`; covered by the correspondence only. -/
@@ -227,6 +285,16 @@ example : specHolds exBubble (compile AsFound.code exBubble) = true ∧
     specHolds exBubble (.ok [⟨[.media [[0, 1]]], some [[.cmp ⟨none, ["a"]⟩]], [("x", "1")]⟩,
                             ⟨[.media [[0]]], some [[.cmp ⟨none, ["a"]⟩, .cmp ⟨none, ["b"]⟩]], [("y", "2")]⟩]) = true := by
   decide
+
+-- non-vacuity of `C04_finish_nested` / `C04_treeBuild_good_bubbling`: the tree built for `exBubble`
+-- (copy-when-following-sibling) is well-formed and `finish` on it is its nested reading:
+-- `@media (f0) {a {}}  @media (f0) and (f1) {a {x: 1}}  @media (f0) {a b {y: 2}}`
+example : ∃ t, treeBuild AsFound.code exBubble = .ok t ∧ Good t ∧ (nestedTop t).length = 3 ∧
+    finish t = some (nestedTop t) := by
+  have hb : bubOnlyL exBubble = true := by decide
+  refine ⟨_, rfl, ?_, by decide, ?_⟩
+  · exact C04_treeBuild_good_bubbling AsFound.code rfl exBubble hb _ rfl
+  · exact C04_finish_nested _ (C04_treeBuild_good_bubbling AsFound.code rfl exBubble hb _ rfl)
 
 /-- `@media (f0) { @supports (s0: v) { a { @at-root (without: supports) { p0: v1 } } } }` -/
 def witD1 : Stmts :=
@@ -266,5 +334,209 @@ theorem C04_asFound_D3_shallowSibling : specHolds witD3 (compile AsFound.code wi
 set_option maxHeartbeats 1600000 in
 theorem C04_asFound_D3_repaired :
     specHolds witD3 (compile { AsFound.code with shallowSibling := false } witD3) = true := by decide
+
+/-! ### round 3: declaration order with nested rules and at-rules in between -/
+
+/-- the declarations written directly in a body, in source order (nested properties flattened) -/
+def ownDecls : Stmts → List (String × String)
+  | .nil => []
+  | .cons (.decl d) ss => declSpec [] d ++ ownDecls ss
+  | .cons _ ss => ownDecls ss
+
+theorem wrapBlock_own (c : SCtx) (r : SpecRes) (ds : List (String × String)) (bs : List Block)
+    (h : wrapBlock c r = .ok (ds, bs)) : ds = [] := by
+  cases r with
+  | error e => simp [wrapBlock] at h
+  | ok x =>
+    obtain ⟨d, b⟩ := x
+    simp only [wrapBlock] at h
+    injection h with h
+    injection h with h1 _
+    exact h1.symm
+
+theorem specStmt_own (c : SCtx) (s : Stmt) (hb : bubOnly s = true) (ds : List (String × String)) (bs : List Block)
+    (h : specStmt c s = .ok (ds, bs)) : ds = ownDecls (.cons s .nil) := by
+  cases s with
+  | decl d =>
+    simp only [specStmt] at h
+    split at h
+    · injection h with h
+      injection h with h1 _
+      simp [ownDecls, ← h1]
+    · cases h
+  | rule sel body =>
+    simp only [specStmt] at h
+    split at h
+    · cases h
+    · simpa [ownDecls] using wrapBlock_own _ _ _ _ h
+  | media qs body =>
+    simp only [specStmt] at h
+    split at h
+    · injection h with h
+      injection h with h1 _
+      simp [ownDecls, ← h1]
+    · simpa [ownDecls] using wrapBlock_own _ _ _ _ h
+  | supports cond body =>
+    simp only [specStmt] at h
+    simpa [ownDecls] using wrapBlock_own _ _ _ _ h
+  | unknown n p body =>
+    simp only [specStmt] at h
+    simpa [ownDecls] using wrapBlock_own _ _ _ _ h
+  | atroot q body => simp [bubOnly] at hb
+
+theorem ownDecls_cons (s : Stmt) (ss : Stmts) : ownDecls (.cons s ss) = ownDecls (.cons s .nil) ++ ownDecls ss := by
+  cases s <;> simp [ownDecls]
+
+theorem specStmts_own (c : SCtx) : ∀ (ss : Stmts), bubOnlyL ss = true → ∀ (ds : List (String × String)) (bs : List Block),
+    specStmts c ss = .ok (ds, bs) → ds = ownDecls ss
+  | .nil, _, ds, bs, h => by
+    simp only [specStmts] at h
+    injection h with h
+    injection h with h1 _
+    simp [ownDecls, ← h1]
+  | .cons s ss, hb, ds, bs, h => by
+    simp only [bubOnlyL, Bool.and_eq_true] at hb
+    simp only [specStmts] at h
+    cases h1 : specStmt c s with
+    | error e => rw [h1] at h; simp [seqRes] at h
+    | ok x1 =>
+      obtain ⟨d1, b1⟩ := x1
+      cases h2 : specStmts c ss with
+      | error e => rw [h1, h2] at h; simp [seqRes] at h
+      | ok x2 =>
+        obtain ⟨d2, b2⟩ := x2
+        rw [h1, h2] at h
+        simp only [seqRes] at h
+        injection h with h
+        injection h with hd _
+        rw [ownDecls_cons, ← hd, specStmt_own c s hb.1 d1 b1 h1, specStmts_own c ss hb.2 d2 b2 h2]
+
+mutual
+theorem rulesOnly_bub : ∀ s : Stmt, rulesOnly s = true → bubOnly s = true
+  | .decl _, _ => rfl
+  | .rule _ body, h => by simp only [rulesOnly] at h; simp only [bubOnly]; exact rulesOnlyL_bub body h
+  | .media _ _, h => by simp [rulesOnly] at h
+  | .supports _ _, h => by simp [rulesOnly] at h
+  | .unknown _ _ _, h => by simp [rulesOnly] at h
+  | .atroot _ _, h => by simp [rulesOnly] at h
+theorem rulesOnlyL_bub : ∀ ss : Stmts, rulesOnlyL ss = true → bubOnlyL ss = true
+  | .nil, _ => rfl
+  | .cons s ss, h => by
+    simp only [rulesOnlyL, Bool.and_eq_true] at h
+    simp only [bubOnlyL, Bool.and_eq_true]
+    exact ⟨rulesOnly_bub s h.1, rulesOnlyL_bub ss h.2⟩
+end
+
+/-- **Declaration order is preserved across nested constructs** (hand-flattening side, bubbling
+    fragment): whatever rules and at-rules stand between them, the declarations written directly in
+    a body reach the enclosing block in source order — the own-declaration part of `specStmts` is
+    `ownDecls`. -/
+theorem C04_spec_own_declarations_in_source_order (c : SCtx) (ss : Stmts) (hb : bubOnlyL ss = true)
+    (ds : List (String × String)) (bs : List Block) (h : specStmts c ss = .ok (ds, bs)) : ds = ownDecls ss :=
+  specStmts_own c ss hb ds bs h
+
+/-- **Declaration order, grass side** (generalises `C04_declaration_order` to bodies with nested
+    rules in between): a top-level rule whose body consists of declarations, nested properties and
+    nested rules (to any depth) compiles to a list that starts with ONE block carrying all the
+    declarations written directly in the body, in source order — those after a nested rule
+    included — followed by the blocks of the nested rules. -/
+theorem C04_declaration_order_interleaved (af : AsFound) (sel : SelList) (body : Stmts)
+    (hsel : sel.any complexHasParent = false) (hb : rulesOnlyL body = true)
+    (ds : List (String × String)) (bs : List Block)
+    (hspec : specStmts { frames := [], sel := some sel, exclStyle := false, inUnknown := false } body = .ok (ds, bs))
+    (hne : ownDecls body ≠ []) :
+    compile af (.cons (.rule sel body) .nil)
+      = .ok ({ ctx := [], sel := some sel, decls := ownDecls body } :: bs.filter Block.nonEmpty) := by
+  rw [C04_treeBuild_eq_flattenSpec_rules af _ (by simp [rulesOnlyL, rulesOnly, hb])]
+  have hds := specStmts_own _ body (rulesOnlyL_bub body hb) ds bs hspec
+  subst hds
+  simp only [flattenSpec, specStmts, specStmt, SCtx.init, resolveList, hsel, Bool.false_eq_true, if_false, hspec]
+  cases hd : ownDecls body with
+  | nil => exact absurd hd hne
+  | cons d rest => simp [wrapBlock, seqRes, SCtx.home, SCtx.ruleHere, Block.nonEmpty]
+
+-- `a { x: 1; b { y: 2 } z: 3 }`: one block `a {x: 1; z: 3}`, then `a b {y: 2}`
+example : (match compile AsFound.code (.cons (.rule [[.cmp ⟨none, ["a"]⟩]]
+    (.cons (.decl (.mk "x" (some "1") .nil))
+      (.cons (.rule [[.cmp ⟨none, ["b"]⟩]] (.cons (.decl (.mk "y" (some "2") .nil)) .nil))
+        (.cons (.decl (.mk "z" (some "3") .nil)) .nil)))) .nil) with
+    | .ok bs => bs == [⟨[], some [[.cmp ⟨none, ["a"]⟩]], [("x", "1"), ("z", "3")]⟩,
+           ⟨[], some [[.cmp ⟨none, ["a"]⟩, .cmp ⟨none, ["b"]⟩]], [("y", "2")]⟩]
+    | .error _ => false) = true := by decide
+
+/-! ### round 3: empty-rule elimination -/
+
+def isNilL : CssList → Bool | .nil => true | .cons _ _ => false
+/-- statements that are only written when something visible is inside (css.rs:54) -/
+def needsBody : Kind → Bool | .rule _ => true | .media _ => true | .supports _ => true | _ => false
+
+mutual
+  /-- no style rule, @media or @supports with an empty body anywhere in the statement -/
+  def noEmptyBlock : Css → Bool
+    | .mk k body => !(needsBody k && isNilL body) && noEmptyBlockL body
+  def noEmptyBlockL : CssList → Bool
+    | .nil => true
+    | .cons c cs => noEmptyBlock c && noEmptyBlockL cs
+end
+
+theorem emitList_nonempty : ∀ body : CssList, allInvisible body = false → isNilL (emitList body) = false
+  | .nil, h => by simp [allInvisible] at h
+  | .cons c cs, h => by
+    simp only [allInvisible] at h
+    by_cases hc : isInvisible c = true
+    · simp only [hc, Bool.true_and] at h
+      simp only [emitList, hc, if_true]
+      exact emitList_nonempty cs h
+    · have hc' : isInvisible c = false := by simpa using hc
+      simp only [emitList, hc', Bool.false_eq_true, if_false]
+      rfl
+
+mutual
+  theorem emit_noEmpty : ∀ c : Css, isInvisible c = false → noEmptyBlock (emit c) = true
+    | .mk k body, h => by
+      simp only [emit, noEmptyBlock, Bool.and_eq_true, Bool.not_eq_true']
+      refine ⟨?_, emitList_noEmpty body⟩
+      cases k with
+      | rule sel => simp only [isInvisible] at h; simp [needsBody, emitList_nonempty body h]
+      | decl n v => simp [needsBody]
+      | media q => simp only [isInvisible] at h; simp [needsBody, emitList_nonempty body h]
+      | supports q => simp only [isInvisible] at h; simp [needsBody, emitList_nonempty body h]
+      | unknown a b => simp [needsBody]
+  theorem emitList_noEmpty : ∀ body : CssList, noEmptyBlockL (emitList body) = true
+    | .nil => by simp [emitList, noEmptyBlockL]
+    | .cons c cs => by
+      by_cases hc : isInvisible c = true
+      · simp only [emitList, hc, if_true]; exact emitList_noEmpty cs
+      · have hc' : isInvisible c = false := by simpa using hc
+        simp only [emitList, hc', Bool.false_eq_true, if_false, noEmptyBlockL, Bool.and_eq_true]
+        exact ⟨emit_noEmpty c hc', emitList_noEmpty cs⟩
+end
+
+/-- **Empty-rule elimination.**  Nothing that is written — at the top level or nested to any depth
+    — is a style rule, @media or @supports with zero written children: the serializer's skipping of
+    invisible statements (`emitTop`/`emit`, the model of lib.rs:205 and serializer.rs:1113 with
+    `CssStmt::is_invisible`, css.rs:54) removes a rule exactly when nothing visible is left in it,
+    so rules that contain only empty rules vanish with them. -/
+theorem C04_emitted_blocks_nonempty (cs : List Css) : ∀ c ∈ emitTop cs, noEmptyBlock c = true := by
+  induction cs with
+  | nil => intro c h; simp [emitTop] at h
+  | cons a as ih =>
+    intro c h
+    by_cases ha : isInvisible a = true
+    · simp only [emitTop, ha, if_true] at h; exact ih c h
+    · have ha' : isInvisible a = false := by simpa using ha
+      simp only [emitTop, ha', Bool.false_eq_true, if_false, List.mem_cons] at h
+      rcases h with h | h
+      · subst h; exact emit_noEmpty a ha'
+      · exact ih c h
+
+-- `a { b { } c { d { } } }  e { f { } x: 1 }`: the first rule vanishes entirely, the second keeps only `x: 1`
+example : emitTop [.mk (.rule [[.cmp ⟨none, ["a"]⟩]])
+      (.cons (.mk (.rule [[.cmp ⟨none, ["b"]⟩]]) .nil)
+        (.cons (.mk (.rule [[.cmp ⟨none, ["c"]⟩]]) (.cons (.mk (.rule [[.cmp ⟨none, ["d"]⟩]]) .nil) .nil)) .nil)),
+    .mk (.rule [[.cmp ⟨none, ["e"]⟩]])
+      (.cons (.mk (.rule [[.cmp ⟨none, ["f"]⟩]]) .nil) (.cons (.mk (.decl "x" "1") .nil) .nil))]
+    = [.mk (.rule [[.cmp ⟨none, ["e"]⟩]]) (.cons (.mk (.decl "x" "1") .nil) .nil)] := by
+  simp [emitTop, emit, emitList, isInvisible, allInvisible]
 
 end Grass.CssTree
